@@ -6,7 +6,7 @@ open Scrapli Scrapli.Lifecycle
   line protocol (one request per line, one reply per line)
     info
       -> close=<fixed|orig|other> open=<ok|other> enter=<ok|other> exit=<ok|other> telnet=<..> asynctelnet=<..> bio=<0|1> pmk=<0|1>
-    run <stack> <kind> <tname> <bypass 0|1> <sink> <on_open> <on_close> <code src|fixed|orig> <history>
+    run <stack> <kind>[+tcr] <tname> <bypass 0|1> <sink> <on_open> <on_close> <code src|fixed|orig> <history>
       hooks: none | ok | raise | d:<platform>      (d: = the generated default hook of that platform and stack)
       history: ops joined by ';' ; op = <letter>[.<body letters>]/<events> ; letters O C X W ; body letters x c o r
       events: '-' or comma separated  <k>[:eof:raw:cooked:ctrl:counter]  with k in o d s r a
@@ -23,6 +23,7 @@ def excName : Exc → String
   | .valueError => "ValueError"
   | .hookError => "HookError"
   | .bodyError => "BodyError"
+  | .closeError => "TransportCloseError"
 
 def outName : Outcome → String
   | .returns => "ret"
@@ -103,17 +104,18 @@ def fieldsName (l : List TnField) : String :=
 def info : String :=
   let cl (st : Stack) : String :=
     let c := (Gen.Lifecycle.codeOf st).closeP
-    if c == closeFixed st then "fixed" else if c == closeOrig st then "orig" else "other"
+    if c == closeFixed st then "fixed" else if c == closeFixed2 st then "fixed2" else if c == closeOrig st then "orig" else "other"
   let both (f : Stack → String) : String := if f .sync == f .async then f .sync else "mixed"
   let okp (f : Stack → Bool) : String := if f .sync && f .async then "ok" else "other"
   let fx := Gen.Lifecycle.facts
-  s!"close={both cl} open={okp fun st => (Gen.Lifecycle.codeOf st).openP == openOf st} enter={okp fun st => (Gen.Lifecycle.codeOf st).enterP == enterP} exit={okp fun st => (Gen.Lifecycle.codeOf st).exitP == exitP} telnet={fieldsName fx.telnetOpenResets} asynctelnet={fieldsName fx.asynctelnetOpenResets} bio={b01 fx.channelCloseKeepsUserSink} pmk={b01 fx.paramikoCloseClosesSession}"
+  s!"close={both cl} open={okp fun st => (Gen.Lifecycle.codeOf st).openP == openOf st} enter={okp fun st => (Gen.Lifecycle.codeOf st).enterP == enterP || (Gen.Lifecycle.codeOf st).enterP == enterP2} exit={okp fun st => (Gen.Lifecycle.codeOf st).exitP == exitP} telnet={fieldsName fx.telnetOpenResets} asynctelnet={fieldsName fx.asynctelnetOpenResets} bio={b01 fx.channelCloseKeepsUserSink} pmk={b01 fx.paramikoCloseClosesSession}"
 
 def handleRun (ws : List String) : Option String :=
   match ws with
   | [stack, kind, tname, bypass, sink, oo, oc, src, hist] => do
     let st ← parseStack stack
-    let kind ← parseKind kind
+    let tcr := kind.endsWith "+tcr"
+    let kind ← parseKind ((kind.splitOn "+").headD "")
     let tname ← parseTName tname
     let sink ← parseSink sink
     let oo ← parseHook st true oo
@@ -125,7 +127,7 @@ def handleRun (ws : List String) : Option String :=
       | _ => none
     let ops ← (hist.splitOn ";").mapM parseOp
     let cfg : Cfg := { stack := st, kind := kind, tname := tname, bypass := bypass == "1", sink := sink,
-                       onOpen := oo, onClose := oc, code := code, facts := facts }
+                       onOpen := oo, onClose := oc, tcloseRaises := tcr, code := code, facts := facts }
     pure (";".intercalate ((runHistory cfg ops {}).map showR))
   | _ => none
 
